@@ -397,6 +397,28 @@ func VfC02Gen(r VfC02Rand, adv bool, gfMode bool) VfC02In {
 	case k == 3:
 		in.Gen = 2
 	}
+	// GlobalFilter updates: the handling GlobalFilter inherits from a previous
+	// generation whose before / after pipelines are absent, the same, or other
+	// flows over the same filter names
+	if gfMode && g.chance(1, 2) {
+		in.GFPrev = true
+		prev := func(cur *VfC02Spec) *VfC02Spec {
+			switch k := g.r.Intn(8); {
+			case k < 2:
+				return nil
+			case k < 4 && cur != nil:
+				c := *cur
+				return &c
+			default:
+				s := g.spec(3)
+				if len(s.Flow) == 0 || g.chance(1, 2) {
+					s = g.longSpec(1+g.r.Intn(3), "o") // valid for sure, so that a g0 exists
+				}
+				return &s
+			}
+		}
+		in.PrevBefore, in.PrevAfter = prev(in.Before), prev(in.After)
+	}
 	// a third of the requests carry a deadline: far ahead, already expired, or
 	// (rarely: it costs a 10 ms sleep) passing while the first filter runs
 	switch k := g.r.Intn(60); {
